@@ -16,6 +16,9 @@ Inductive case :=
 (* the same call contract observed for any other combination (Lua callee, unprotected, Call/PCall):
    the list before, the results the callee produced, NRet, whether it failed; the list afterwards *)
 | CCall (l results : list cell) (nret : Z) (fails : bool) (obs_err : bool) (obs_after : list cell)
+(* vm.go copyReturnValues(L, regv, start, n, b) on a registry holding cells (top = len cells) with
+   stale cells above: the top and the live cells afterwards *)
+| CCopyRet (cells above : list cell) (pad : Z) (regv start n b : Z) (obs_top : Z) (obs_cells : list cell)
 (* an object-level API call against the same operator evaluated by a Lua chunk: both sides encoded
    as integer traces (result, then the metamethod log) *)
 | CObj (op : Z) (api lua : list Z).
@@ -39,8 +42,17 @@ Definition check_impl (c : case) : bool :=
       end
   | CCall l results nret fails oerr oafter =>
       Bool.eqb fails oerr && cells_eqb (if fails then l else l ++ adjust nret results) oafter
+  | CCopyRet cells above pad regv start n b otop ocells =>
+      match copyReturnValues (mkR [] cells above pad 0 0) regv start n b with
+      | Ok r' => (top r' =? otop) && cells_eqb (live r') ocells
+      | _ => false
+      end
   | CObj _ api lua => list_eqb Z.eqb api lua
   end.
+
+(* the values OP_RETURN A B returns from the registers regs (B = 0: up to the top) *)
+Definition retvals (regs : list cell) (A B : Z) : list cell :=
+  if B =? 0 then skipn (Z.to_nat A) regs else resizeL (skipn (Z.to_nat A) regs) (B - 1).
 
 (* compare along the script while it stays in the domain of the list specification *)
 Fixpoint spec_api (l : list cell) (ops : list aop) (obs : list aobs) : bool :=
@@ -65,5 +77,10 @@ Definition check_spec (c : case) : bool :=
       && cells_eqb pre pre_after
   | CCall l results nret fails oerr oafter =>
       Bool.eqb fails oerr && cells_eqb (if fails then l else l ++ adjust nret results) oafter
+  | CCopyRet cells above pad regv start n b otop ocells =>
+      (* towards lower registers, inside the frame: n values, the returned ones first, then nil *)
+      if (0 <=? regv) && (regv <=? start) && (start + Z.max 0 (b - 1) <=? len cells) && (0 <=? n) && (0 <=? b) then
+        (otop =? regv + n) && cells_eqb (firstn (Z.to_nat regv) cells ++ resizeL (retvals cells start b) n) ocells
+      else true
   | CObj _ api lua => list_eqb Z.eqb api lua
   end.
